@@ -120,12 +120,24 @@ def run_case(ns, mon, c):
             g = rng.standard_normal(x_.shape) if x_.shape else np.array(float(rng.uniform(0.5, 2)))
             x_.backward(T(np.array(g)))
             y_.backward(T(np.array(g)))
-        for i, (p, q) in enumerate(zip(la, lb)):
-            ga = np.zeros_like(p.data) if p.grad is None else p.grad.data
-            gb = np.zeros_like(q.data) if q.grad is None else q.grad.data
-            sc = max(1.0, float(np.max(np.abs(ga))) if ga.size else 1.0)
-            if ga.shape != gb.shape or not np.allclose(ga, gb, rtol=tolg or tol_g, atol=(tolg or tol_g) * sc):
-                res.append(("gradient", f"gradient of operand {i} differs by {float(np.max(np.abs(ga - gb))) if ga.shape == gb.shape else 'shape'}"))
+        def cmp_grads(tag):
+            for i, (p, q) in enumerate(zip(la, lb)):
+                ga = np.zeros_like(p.data) if p.grad is None else p.grad.data
+                gb = np.zeros_like(q.data) if q.grad is None else q.grad.data
+                sc = max(1.0, float(np.max(np.abs(ga))) if ga.size else 1.0)
+                if ga.shape != gb.shape or not np.allclose(ga, gb, rtol=tolg or tol_g, atol=(tolg or tol_g) * sc):
+                    res.append((tag, f"gradient of operand {i} differs by {float(np.max(np.abs(ga - gb))) if ga.shape == gb.shape else 'shape'}"))
+        cmp_grads("gradient")
+        if not res:
+            # both sides are differentiated a second time (gradient accumulation over the same graphs): they must still agree
+            try:
+                for x_, y_ in zip(oa, ob):
+                    g = rng.standard_normal(x_.shape) if x_.shape else np.array(float(rng.uniform(0.5, 2)))
+                    x_.backward(T(np.array(g)))
+                    y_.backward(T(np.array(g)))
+                cmp_grads("gradient-after-second-backward")
+            except Exception as e:
+                res.append(("second-backward-raises", f"{type(e).__name__}: {str(e)[:80]}"))
         return res, nel
 
     args = {k: v for k, v in c.items() if k not in ("seed", "id")}
@@ -143,15 +155,19 @@ def run_case(ns, mon, c):
             res, nel = both([x], lambda a: sg.log_softmax(a, c["dim"]), lambda a: sg.softmax(a, c["dim"]).log(), 1e-6, 1e-6)
         elif ident == "linear":
             xs = c["xshape"]
-            arrs = [rng.standard_normal(tuple(xs)), rng.standard_normal((c["out"], xs[-1]))] + ([rng.standard_normal((c["out"],))] if c["bias"] else [])
+            bias0 = np.zeros((c["out"],)) if c["seed"] % 3 == 0 else rng.standard_normal((c["out"],))      # a bias that currently holds exact zeros
+            arrs = [rng.standard_normal(tuple(xs)), rng.standard_normal((c["out"], xs[-1]))] + ([bias0] if c["bias"] else [])
             res, nel = both(arrs, lambda x, w, b=None: sg.linear(x, w, b), lambda x, w, b=None: (x @ w.transpose(0, 1) + b) if b is not None else x @ w.transpose(0, 1))
         elif ident == "addmm":
-            arrs = [rng.standard_normal(tuple(c["sa"])), rng.standard_normal((c["m"], c["k"])), rng.standard_normal((c["k"], c["n"]))]
+            sb_, sc_ = [(c["m"], c["k"]), (c["k"], c["n"])]
+            if c["seed"] % 4 == 0:
+                sb_, sc_ = [((c["m"], c["k"]), (2, c["k"], c["n"])), ((1, c["m"], c["k"]), (3, c["k"], c["n"])), ((2, c["m"], c["k"]), (c["k"], c["n"]))][c["seed"] // 4 % 3]
+            arrs = [rng.standard_normal(tuple(c["sa"])), rng.standard_normal(sb_), rng.standard_normal(sc_)]
             res, nel = both(arrs, lambda a, b, cc: sg.addmm(a, b, cc), lambda a, b, cc: a + b @ cc)
         elif ident == "conv2d":
             N, C, H, W, k, s, p, d, co = c["N"], c["C"], c["H"], c["W"], c["k"], c["s"], c["p"], c["d"], c["cout"]
             lH, lW = R.out_len(H, k[0], s[0], p[0], d[0]), R.out_len(W, k[1], s[1], p[1], d[1])
-            arrs = [rng.standard_normal((N, C, H, W)), rng.standard_normal((co, C, k[0], k[1]))] + ([rng.standard_normal((co,))] if c["bias"] else [])
+            arrs = [rng.standard_normal((N, C, H, W)), rng.standard_normal((co, C, k[0], k[1]))] + ([rng.standard_normal((co,)) * (c["seed"] % 3 != 0)] if c["bias"] else [])
 
             def comp(x, w, b=None):
                 cols = sg.unfold(x, tuple(k), tuple(d), tuple(s), tuple(p))           # (N, C*kH*kW, L)
@@ -161,7 +177,7 @@ def run_case(ns, mon, c):
         elif ident == "conv1d":
             N, C, L, k, s, p, d, co = c["N"], c["C"], c["L"], c["k"], c["s"], c["p"], c["d"], c["cout"]
             lW = R.out_len(L, k, s, p, d)
-            arrs = [rng.standard_normal((N, C, L)), rng.standard_normal((co, C, k))] + ([rng.standard_normal((co,))] if c["bias"] else [])
+            arrs = [rng.standard_normal((N, C, L)), rng.standard_normal((co, C, k))] + ([rng.standard_normal((co,)) * (c["seed"] % 3 != 0)] if c["bias"] else [])
 
             def comp1(x, w, b=None):
                 cols = sg.unfold(x.unsqueeze(2), (1, k), (1, d), (1, s), (0, p))         # (N, C*k, lW)
@@ -235,6 +251,8 @@ def run_case(ns, mon, c):
             x = rng.standard_normal(tuple(c["xshape"]))
             neu, lin = nn.Neuron(fin, bias=c["bias"]), nn.Linear(fin, 1, bias=c["bias"])
             w = rng.standard_normal((1, fin)).astype(np.float32); b = rng.standard_normal((1,)).astype(np.float32)
+            if c["seed"] % 2 == 0:
+                b = np.zeros((1,), dtype=np.float32)
             for m_ in (neu, lin):
                 m_.weight.data = w.astype(np.float64).copy()
                 if c["bias"]:
